@@ -155,7 +155,9 @@ func ptrTo(v any) any {
 	return p.Interface()
 }
 
-var dictStrings = []string{"", "a", "abc", "\x00", "a\x00b", "é", "日本語", "😀", "<>&", " ", "\"q\\", "a b", "null", "<nil>", "</script>", "ab", "b"}
+var dictStrings = []string{"", "a", "abc", "\x00", "a\x00b", "é", "日本語", "😀", "<>&", " ", "\"q\\", "a b", "null", "<nil>", "</script>", "ab", "b",
+	// texts that look like JSON escapes once printed
+	"\\u0026", "\\n", "\u2028", "a\\"}
 
 func utcTime(sec int64, nsec int64) time.Time { return time.Unix(sec, nsec).UTC() }
 
@@ -164,6 +166,8 @@ var dictTimes = []time.Time{
 	utcTime(253402300799, 999999999), utcTime(1582979696, 500000000),
 	time.Unix(1582979696, 0).In(time.FixedZone("", 5*3600+30*60)), time.Unix(1582979696, 7).In(time.FixedZone("", -23*3600-59*60)),
 	time.Time{},
+	// the same instants as the two zoned entries, in UTC
+	utcTime(1582979696, 0), utcTime(1582979696, 7),
 }
 
 var dictBytes = [][]byte{{}, {0}, {1, 2}, {2, 1}, {1, 2, 3}, {255}, {97}, {97, 98, 99}, {1}, {1, 2, 0}}
